@@ -59,14 +59,28 @@ _NESTED_DICT = {
         {"op": "return", "e": {"var": "x2"}}]],
     "params": {"kinds": {}},
 }
+# the same not-yet-computed plain (lazy) future pushed on the scheduler's stack twice: its computation runs once
+_DOUBLE_LAZY = {
+    "roots": [[
+        {"op": "let", "h": "h1", "f": {"lazy": {"ok": 21}}},
+        {"op": "let", "h": "h2", "f": {"lazy": {"err": 8}}},
+        {"op": "try", "body": [
+            {"op": "yield", "x": "x1", "s": {"tuple": [{"old": "h1"}, {"old": "h1"},
+                {"new": {"task": [{"op": "yield", "x": "a1", "s": {"list": [{"old": "h1"}, {"old": "h2"}]}}, {"op": "return", "e": {"var": "a1"}}]}},
+                {"old": "h2"}, {"old": "h2"}]}}], "x": "e1", "handler": []},
+        {"op": "yield", "x": "x2", "s": {"old": "h1"}},
+        {"op": "return", "e": {"var": "x2"}}]],
+    "params": {"kinds": {}},
+}
 _EXTRA = [
+    (1, dict(name="shared-lazy", p_ctx_fault=0, p_nonasync=0, budget=16, max_depth=4, p_lazy=0.5, p_let=0.4, p_old=0.6, p_item=0.2)),
     (2, dict(name="nested-dict", p_ctx_fault=0, p_nonasync=0, budget=18, max_depth=4, p_dict=0.5, p_errfut=0.1, p_try=0.2)),
     (1, dict(name="reuse", p_ctx_fault=0, p_nonasync=0, budget=16, max_depth=4, p_again=0.6, p_let=0.35, p_old=0.5)),
 ]
 
-mach.install(globals(), "C03", ("EvStep", "EvDone"), ("C03:",), PROFILES, n_quick=300, n_thorough=25000,
+mach.install(globals(), "C03", ("EvStep", "EvDone"), ("C03:", "C10:compute-once"), PROFILES, n_quick=300, n_thorough=25000,
              nontrivial=_nontrivial, hang_clause="C03:termination", level="proof", extra_monitors=_extra,
-             corpus=[_NESTED_DICT], extra_gen=mach.extra_profiles(_EXTRA, 45, 3000))
+             corpus=[_NESTED_DICT, _DOUBLE_LAZY], extra_gen=mach.extra_profiles(_EXTRA, 60, 4000))
 
 _gen0 = gen_cases
 _cmp0 = compare
